@@ -73,7 +73,7 @@ func (m *gwModel) connectGraph(r *Report) *cxGraph {
 			for _, ph := range g.Phases {
 				for _, t := range trigs {
 					cells := map[string]aval{"state": kint(stDisconnected), "type:sn": kstr(t.typ), g.PhaseCell: kint(ph),
-						willFlagCell: kint(will), "type:tx": kstr("*gateway.connectTransaction")}
+						willFlagCell: kint(will), "type:tx": kstr(m.c.gwConnectTx())}
 					for k, v := range t.cells {
 						cells[k] = v
 					}
@@ -537,7 +537,7 @@ func checkC09(c *Ctx, r *Report) {
 	// R3: CONNACK mapping
 	for _, rc := range []int64{0, 1, 2, 3, 4, 5, 6, 0x80, 0xfe, 0xff} {
 		for _, st := range []int64{0, 1, 2, 3} {
-			cells := map[string]aval{"state": kint(st), "type:mq": kstr("*mqtt.ConnackPacket"), "type:tx": kstr("*gateway.connectTransaction"),
+			cells := map[string]aval{"state": kint(st), "type:mq": kstr("*mqtt.ConnackPacket"), "type:tx": kstr(c.gwConnectTx()),
 				"f:mqtt.ConnackPacket.ReturnCode": kint(rc)}
 			outs, _ := m.run(m.mqDisp, cells)
 			key := fmt.Sprintf("connack-rc=%d/%s", rc, stateNames[st])
